@@ -1,4 +1,6 @@
 (* C08 — Encode reports an error instead of emitting an out-of-range message. *)
+From DNS Require Import Model.Dec Model.Enc Spec.Wire
+  Proofs.RtFields Proofs.RtRecord Proofs.RtMsg Proofs.C05 Proofs.OkApi Proofs.OkInv Proofs.OkDecodable.
 From DNS Require Import Model.Dec Model.Enc Proofs.ListN Proofs.EncTotal Proofs.EncLimits
                         Proofs.EncStructure Proofs.EncTyped Proofs.EncBytes.
 Local Open Scope N_scope.
@@ -298,3 +300,162 @@ Example C08_note_unvalidated_label :
   (exists rest, enc_DomainName [zeros (N.to_nat 64)] = Ok (64 :: rest)) /\
   enc_DomainName [zeros (N.to_nat 256)] = Err (XString, [256]).
 Proof. split; [eexists; vm_compute; reflexivity|vm_compute; reflexivity]. Qed.
+
+(* ------------------------------------------------------------------------------------------
+   okdec: for API-constructible values outside the known-finding classes, Ok means decodable to the same value *)
+(* C08, last clause — "A value that cannot be represented (oversized string, RDATA, option, section or
+   message) yields an error, never a message that decodes to something else or not at all."
+
+   Read as: whenever the encoder answers Ok for a value that the Rust types allow (api_ok) and that is
+   not in one of the four known defect classes (known_class = KF4 \/ KF5 \/ KF6 \/ KF7), the output
+   decodes — by the library's decoder AND by the independent reference decoder — to that value (up to
+   what name compression may change).  So every other outcome for such a value is an error.
+
+   Vocabulary (Proofs/OkApi.v; each clause there names the Rust type that provides it):
+     api_ok m        id: u16; Opcode / RCode members of their enums (RCode may be 16..23); every question:
+                     DomainName, QType, QClass; every record api_rr; sections of ANY length
+     api_rr r        by dispatch entry:
+                     field records: owner DomainName, TYPE of the variant, ttl u32, Class (class 1 where the
+                       struct has no class field), one value per struct field of the Rust type of that field
+                       (api_fv: integer widths, DomainName, String = valid UTF-8 of ANY length, Vec<u8>,
+                       Ipv4Addr/Ipv6Addr, enum members, PSDNAddress/ISDNAddress digits, SA hex digits,
+                       Tag non-empty lower-case alphanumeric, NonEmptyVec<String>, DNSKEY flag bits;
+                       GPOS coordinates: just Strings)
+                     OPT: u16/u8/u8/bool, options: ECS accepted by check_prefix (ECS::new + setters, C12),
+                       Cookie [u8;8] + Option<8..=32 octets> (Cookie::new), Padding(u16); canonical unused fields
+                     APL: items accepted by check_prefix (APItem::new), prefix u8
+                     SVCB/HTTPS: priority u16, target DomainName, parameters of their Rust types (alpn ids
+                       Strings of ANY length, ech Vec<u8> of ANY length, PRIVATE number ANY u16) forming a
+                       set with strictly increasing keys (BTreeSet with key-only Ord); NO relation between
+                       priority and parameters
+     known_class m   kf4 m: 16 <= rcode
+                     kf5_rr r: type 27 and one of the three coordinate strings is empty
+                     kf6_rr r: a PRIVATE parameter whose number is one of 0..=6, 65535
+                     kf7_rr r: priority 0 with a non-empty parameter set
+     dns_wf, dns_eqv, spec_Dns: as in Props/C05.v *)
+
+
+(* ---- 1. the heart: what api_ok does not give and known_class does not exclude, the encoder enforced ---- *)
+Theorem C08_ok_means_wf : forall (m : dns) (b : bytes),
+  api_ok m = true -> known_class m = false -> enc_Dns m = Ok b -> dns_wf m = true.
+Proof. exact ok_means_wf. Qed.
+Print Assumptions C08_ok_means_wf.
+
+(* ---- 2. Ok means decodable, to the same value, by both decoders ---- *)
+Theorem C08_ok_means_decodable : forall (m : dns) (b : bytes),
+  api_ok m = true -> known_class m = false -> enc_Dns m = Ok b ->
+  (exists m' s, dec_Dns b = DOk m' s /\ dns_eqv m' m) /\
+  (exists m', spec_Dns b = Some m' /\ dns_eqv m' m).
+Proof. exact ok_means_decodable. Qed.
+Print Assumptions C08_ok_means_decodable.
+
+(* the same, contrapositive: an unrepresentable value is never Ok *)
+Theorem C08_unrepresentable_is_not_ok : forall m : dns,
+  api_ok m = true -> known_class m = false -> dns_wf m = false -> forall b, enc_Dns m <> Ok b.
+Proof. exact unrepresentable_is_not_ok. Qed.
+Print Assumptions C08_unrepresentable_is_not_ok.
+
+(* ---- 3. element level: one record written from ANY encoder state ---- *)
+Theorem C08_ok_means_wf_rr : forall (r : rr) (s s' : est),
+  api_rr r = true -> known_rr r = false -> enc_rr r s = EOk tt s' -> rr_wf r = true.
+Proof. exact rr_enforced. Qed.
+Print Assumptions C08_ok_means_wf_rr.
+
+(* error propagation: a loop that succeeded ran every element successfully *)
+Theorem C08_emap_ok_inv : forall (A : Type) (f : A -> EM unit) (l : list A) (s s' : est),
+  emap f l s = EOk tt s' -> Forall (fun x => exists s1 s2 : est, f x s1 = EOk tt s2) l.
+Proof. exact @emap_ok_inv. Qed.
+Print Assumptions C08_emap_ok_inv.
+
+Theorem C08_ebind_ok_inv : forall (A B : Type) (m : EM A) (f : A -> EM B) (s : est) (b : B) (s' : est),
+  ebind m f s = EOk b s' -> exists (a : A) (s1 : est), m s = EOk a s1 /\ f a s1 = EOk b s'.
+Proof. exact @ebind_ok_inv. Qed.
+Print Assumptions C08_ebind_ok_inv.
+
+(* one field value: typed, written, not an empty GPOS string ==> what the decoder demands *)
+Theorem C08_ok_means_wf_field : forall (k : fk) (v : fv) (s s' : est),
+  api_fv k v = true -> gpos_fv k v = true -> write_field k (Some v) s = EOk tt s' -> fv_wf k v = true.
+Proof. exact fv_enforced. Qed.
+Print Assumptions C08_ok_means_wf_field.
+
+(* ---- 4. the exclusions are necessary: one typed witness per known class ---- *)
+(* KF4: RCode BADVERS is written into the CD bit; the output decodes to ANOTHER value (cd set, NoError) *)
+Example C08_known_refuted_kf4 :
+  api_ok w_kf4 = true /\ known_class w_kf4 = true /\
+  enc_Dns w_kf4 = Ok [0; 1; 128; 16; 0; 0; 0; 0; 0; 0; 0; 0] /\
+  (exists s, dec_Dns [0; 1; 128; 16; 0; 0; 0; 0; 0; 0; 0; 0] =
+             DOk {| m_id := 1;
+                    m_flags := {| f_qr := true; f_opcode := 0; f_aa := false; f_tc := false; f_rd := false;
+                                  f_ra := false; f_ad := false; f_cd := true; f_rcode := 0 |};
+                    m_qd := []; m_an := []; m_ns := []; m_ar := [] |} s) /\
+  ~ dns_eqv {| m_id := 1;
+               m_flags := {| f_qr := true; f_opcode := 0; f_aa := false; f_tc := false; f_rd := false;
+                             f_ra := false; f_ad := false; f_cd := true; f_rcode := 0 |};
+               m_qd := []; m_an := []; m_ns := []; m_ar := [] |} w_kf4.
+Proof. exact known_refuted_kf4. Qed.
+Print Assumptions C08_known_refuted_kf4.
+
+(* KF5: GPOS with an empty longitude: Ok, and the output does not decode at all *)
+Example C08_known_refuted_kf5 :
+  api_ok w_kf5 = true /\ known_class w_kf5 = true /\
+  enc_Dns w_kf5 = Ok [0; 1; 128; 0; 0; 0; 0; 1; 0; 0; 0; 0; 1; 97; 0; 0; 27; 0; 1; 0;
+                      0; 0; 0; 0; 5; 0; 1; 49; 1; 50] /\
+  dec_Dns [0; 1; 128; 0; 0; 0; 0; 1; 0; 0; 0; 0; 1; 97; 0; 0; 27; 0; 1; 0;
+           0; 0; 0; 0; 5; 0; 1; 49; 1; 50] = DErr (EGPOS, []) 31.
+Proof. exact known_refuted_kf5. Qed.
+Print Assumptions C08_known_refuted_kf5.
+
+(* KF6: PRIVATE { number: 3, [1, 187] } decodes to PORT { 443 } *)
+Example C08_known_refuted_kf6 :
+  api_ok w_kf6 = true /\ known_class w_kf6 = true /\
+  enc_Dns w_kf6 = Ok [0; 1; 128; 0; 0; 0; 0; 1; 0; 0; 0; 0; 1; 97; 0; 0; 64; 0; 1; 0;
+                      0; 0; 0; 0; 9; 0; 1; 0; 0; 3; 0; 2; 1; 187] /\
+  (exists s, dec_Dns [0; 1; 128; 0; 0; 0; 0; 1; 0; 0; 0; 0; 1; 97; 0; 0; 64; 0; 1; 0;
+                      0; 0; 0; 0; 9; 0; 1; 0; 0; 3; 0; 2; 1; 187] =
+             DOk (w_msg 0 [w_svcb (RSvcb 1 [] [PPort 443])]) s) /\
+  ~ dns_eqv (w_msg 0 [w_svcb (RSvcb 1 [] [PPort 443])]) w_kf6.
+Proof. exact known_refuted_kf6. Qed.
+Print Assumptions C08_known_refuted_kf6.
+
+(* KF6: PRIVATE { number: 3, [1] } does not decode at all *)
+Example C08_known_refuted_kf6b :
+  api_ok w_kf6b = true /\ known_class w_kf6b = true /\
+  enc_Dns w_kf6b = Ok [0; 1; 128; 0; 0; 0; 0; 1; 0; 0; 0; 0; 1; 97; 0; 0; 64; 0; 1; 0;
+                       0; 0; 0; 0; 8; 0; 1; 0; 0; 3; 0; 1; 1] /\
+  dec_Dns [0; 1; 128; 0; 0; 0; 0; 1; 0; 0; 0; 0; 1; 97; 0; 0; 64; 0; 1; 0;
+           0; 0; 0; 0; 8; 0; 1; 0; 0; 3; 0; 1; 1] = DErr (ENotEnoughBytes, [1; 2]) 41.
+Proof. exact known_refuted_kf6b. Qed.
+Print Assumptions C08_known_refuted_kf6b.
+
+(* KF7: alias form with PORT { 443 }: the parameter is dropped, the output decodes to the record without it *)
+Example C08_known_refuted_kf7 :
+  api_ok w_kf7 = true /\ known_class w_kf7 = true /\
+  enc_Dns w_kf7 = Ok [0; 1; 128; 0; 0; 0; 0; 1; 0; 0; 0; 0; 1; 97; 0; 0; 64; 0; 1; 0;
+                      0; 0; 0; 0; 5; 0; 0; 1; 98; 0] /\
+  (exists s, dec_Dns [0; 1; 128; 0; 0; 0; 0; 1; 0; 0; 0; 0; 1; 97; 0; 0; 64; 0; 1; 0;
+                      0; 0; 0; 0; 5; 0; 0; 1; 98; 0] =
+             DOk (w_msg 0 [w_svcb (RSvcb 0 [[98]] [])]) s) /\
+  ~ dns_eqv (w_msg 0 [w_svcb (RSvcb 0 [[98]] [])]) w_kf7.
+Proof. exact known_refuted_kf7. Qed.
+Print Assumptions C08_known_refuted_kf7.
+
+(* every witness is in exactly ONE class *)
+Example C08_known_witnesses_separate :
+  (kf4 w_kf4 = true /\ existsb known_rr (m_an w_kf4) = false) /\
+  (kf4 w_kf5 = false /\ forallb (fun r => kf5_rr r && negb (kf6_rr r) && negb (kf7_rr r)) (m_an w_kf5) = true) /\
+  (kf4 w_kf6 = false /\ forallb (fun r => negb (kf5_rr r) && kf6_rr r && negb (kf7_rr r)) (m_an w_kf6) = true) /\
+  (kf4 w_kf7 = false /\ forallb (fun r => negb (kf5_rr r) && negb (kf6_rr r) && kf7_rr r) (m_an w_kf7) = true).
+Proof. exact known_witnesses_separate. Qed.
+Print Assumptions C08_known_witnesses_separate.
+
+(* ---- 5. not vacuous: a typed 256-octet string is an error; a typed ordinary value encodes ---- *)
+Example C08_oversize_typed_is_error :
+  api_ok w_long = true /\ known_class w_long = false /\ dns_wf w_long = false /\
+  enc_Dns w_long = Err (XString, [256]).
+Proof. exact oversize_typed_is_error. Qed.
+Print Assumptions C08_oversize_typed_is_error.
+
+Example C08_typed_good_encodes :
+  api_ok w_good = true /\ known_class w_good = false /\ exists b, enc_Dns w_good = Ok b.
+Proof. exact typed_good_encodes. Qed.
+Print Assumptions C08_typed_good_encodes.
